@@ -42,7 +42,8 @@ ASSUMPTIONS = ["trusted base: `cryptography` loads the generated key numbers fai
                "passphrases are restricted to NFKC-stable assigned code points"]
 SHARDS = {"quick": 4, "thorough": 16}
 FLOORS = {"ns_roundtrips": 2000, "mp_roundtrips": 2000, "mp_reference_decodes": 2000, "key_roundtrips": 60,
-          "key_fingerprint_comparisons": 100, "keys_generated": 4, "encrypted_roundtrips": 4}
+          "key_fingerprint_comparisons": 100, "keys_generated": 4, "encrypted_roundtrips": 4,
+          "long_value_lists": 1000, "ec_keys_with_leading_zero_coordinate": 1}
 READY = True
 
 KNOWN_LSH = "lsh-rsa-private-pq-swap"
@@ -218,6 +219,22 @@ def gen_ec(rng, curve):
     return Key(ec.derive_private_key(v, c))
 
 
+def gen_ec_leading_zero(rng, curve):
+    """An EC key whose public x or y coordinate has a zero top byte (fixed-width point encoding)."""
+    from cryptography.hazmat.primitives.asymmetric import ec
+    from twisted.conch.ssh.keys import Key
+
+    c = {"p256": ec.SECP256R1(), "p384": ec.SECP384R1(), "p521": ec.SECP521R1()}[curve]
+    nbytes = (c.key_size + 7) // 8
+    top = 8 * (nbytes - 1) - (8 * nbytes - c.key_size if c.key_size % 8 else 0)
+    for _ in range(4000):
+        k = ec.derive_private_key(rng.getrandbits(c.key_size - 2) or 1, c)
+        n = k.public_key().public_numbers()
+        if min(n.x.bit_length(), n.y.bit_length()) <= c.key_size - 8:
+            return Key(k)
+    return Key(k)
+
+
 def gen_ed(rng):
     from twisted.conch.ssh.keys import Key
 
@@ -240,6 +257,8 @@ def key_plan(ctx):
             plan.append(("ec", ("p256", "p384", "p521")[i % 3]))
         for i in range(20):
             plan.append(("ed",))
+    # appended last so that earlier pool indices (and their replays) stay what they were
+    plan += [("ec", "p256", "lz"), ("ec", "p521", "lz")] if ctx.quick else [("ec", c, "lz") for c in ("p256", "p384", "p521") for _ in range(2)]
     return plan
 
 
@@ -249,7 +268,7 @@ def make_key(rng, spec):
     if spec[0] == "dsa":
         return gen_dsa(rng, spec[1])
     if spec[0] == "ec":
-        return gen_ec(rng, spec[1])
+        return gen_ec_leading_zero(rng, spec[1]) if len(spec) > 2 else gen_ec(rng, spec[1])
     return gen_ed(rng)
 
 
@@ -364,6 +383,10 @@ def check_key(ctx, idx, spec, heavy):
     if spec[0] == "rsa":
         d = key.data()
         ctx.count("rsa_keys_p_gt_q" if d["p"] > d["q"] else "rsa_keys_p_lt_q")
+    if spec[0] == "ec":
+        d = key.data()
+        if min(d["x"].bit_length(), d["y"].bit_length()) <= key.size() - 8:
+            ctx.count("ec_keys_with_leading_zero_coordinate")
     for fmt in formats_for(key, rng, heavy):
         check_format(ctx, key, label, fmt)
     if idx < 2:
@@ -393,6 +416,31 @@ def run(ctx):
             check_mp(ctx, values, rest)
             ctx.distinct(("mp", tuple(values), rest))
         ctx.evaluated()
+    from twisted.conch.ssh import common
+
+    # longer runs of values per call (KEXINIT reads 10 name-lists with one getNS), incl. empty strings and zeros
+    for i in ctx.cases(3000, 200000):
+        rng = ctx.case_rng("many", i)
+        n = rng.randint(5, 12)
+        rest = rng.randbytes(rng.choice((0, 1, 4, 9)))
+        if i % 2:
+            strings = [rng.choice((b"", b"", b",", rng.randbytes(rng.randint(0, 40)))) for _ in range(n)]
+            check_ns(ctx, strings, rest)
+            ctx.distinct(("ns-many", tuple(strings), rest))
+        else:
+            values = [rng.choice((0, 0, 1, 128, gen_int(rng))) for _ in range(n)]
+            check_mp(ctx, values, rest)
+            ctx.distinct(("mp-many", tuple(values), rest))
+        ctx.count("long_value_lists")
+        ctx.evaluated()
+    # counted, not judged (the statement is about values MP/NS produce): foreign mpint encodings and negative input
+    if ctx.shard == 0:
+        for enc_ in (b"\0\0\0\1\xff", b"\0\0\0\2\x00\x7f", b"\0\0\0\2\xff\x7f", b"\0\0\0\1\x80"):
+            ctx.seen("unjudged_getMP_foreign_encodings", "%s -> %r" % (enc_.hex(), common.getMP(enc_)[0]))
+        try:
+            ctx.seen("unjudged_MP_negative", repr(common.MP(-1)))
+        except Exception as e:  # noqa: BLE001
+            ctx.seen("unjudged_MP_negative", type(e).__name__)
     plan = key_plan(ctx)
     for idx, spec in enumerate(plan):
         if ctx.owns(idx):
